@@ -503,3 +503,37 @@ def copies_into(stmt):
             and len(stmt.value.args) == 2 and not stmt.value.keywords:
         return stmt.value.args[0], stmt.value.args[1]
     return None
+
+
+def length_of(expr):
+    """the sequence whose (first-axis) length an expression reads: `len(a)`, `a.shape[0]`, `np.size(a, 0)`; else None"""
+    if isinstance(expr, ast.Call) and isinstance(expr.func, ast.Name) and expr.func.id == "len" and len(expr.args) == 1:
+        return expr.args[0]
+    if isinstance(expr, ast.Subscript) and isinstance(expr.value, ast.Attribute) and expr.value.attr == "shape" \
+            and isinstance(expr.slice, ast.Constant) and expr.slice.value == 0:
+        return expr.value.value
+    return None
+
+
+def rows_from(expr):
+    """(array, start) for a slice that keeps the rows from `start` on, with all columns: `a[k:]`, `a[k:, :]`, `a[k:, ...]`; else None"""
+    if not isinstance(expr, ast.Subscript):
+        return None
+    sl = expr.slice
+    if isinstance(sl, ast.Tuple) and len(sl.elts) == 2:
+        rest = sl.elts[1]
+        full = (isinstance(rest, ast.Slice) and rest.lower is None and rest.upper is None and rest.step is None) or \
+            (isinstance(rest, ast.Constant) and rest.value is Ellipsis)
+        if not full:
+            return None
+        sl = sl.elts[0]
+    if isinstance(sl, ast.Slice) and sl.lower is not None and sl.upper is None and sl.step is None:
+        return expr.value, sl.lower
+    return None
+
+
+def is_empty_mapping(expr):
+    """`{}`, `dict()`, `OrderedDict()` (insertion-ordered, empty)"""
+    if isinstance(expr, ast.Dict) and not expr.keys:
+        return True
+    return isinstance(expr, ast.Call) and not expr.args and not expr.keywords and ast.unparse(expr.func).split(".")[-1] in ("dict", "OrderedDict")
